@@ -85,10 +85,10 @@ func encodeCSV(ctx context.Context, fp io.Writer, view *View, options option.Exp
 			return NewSystemError(err.Error())
 		}
 	}
-	if err = w.Flush(); err != nil {
-		return NewSystemError(err.Error())
+	if e := w.Flush(); e != nil {
+		return NewSystemError(e.Error())
 	}
-	return nil
+	return err
 }
 
 func encodeFixedLengthFormat(ctx context.Context, fp io.Writer, view *View, options option.ExportOptions) error {
